@@ -38,6 +38,7 @@ listed in ``KNOWN_CLS_DOC`` at the bottom.
 """
 import contextlib
 import copy
+import io
 import itertools
 import signal
 
@@ -582,7 +583,8 @@ def findings_optimiser(case):
         case["_init_dup"] = len(set(first)) < len(first)
     out = []
     try:
-        with generator_state(case["seed"]), time_limit(case.get("limit", 60)):
+        with generator_state(case["seed"]), time_limit(case.get("limit", 30)), \
+                contextlib.redirect_stdout(io.StringIO()):       # pymoo prints advice about reference directions
             prob = build_problem(kind, ps)
             before = snapshot_problem(prob)
             opt = _make_algo(case)
@@ -883,7 +885,7 @@ def gen_hillclimb(rnd, tier, algo):
                                  vstyle=rnd.choice(["int", "ties", "equal", "dyadic"]),
                                  dtype=rnd.choice(["int64", "int64", "int32"]))
                 case = dict(fam="hc", algo=algo, kind="subset", prob=ps, seed=rnd.randrange(10 ** 6),
-                            miscout=bool(rnd.random() < 0.5), limit=30)
+                            miscout=bool(rnd.random() < 0.5), limit=10)
                 if algo == "SDHC":
                     case["rng"] = rnd.choice(["RandomState", "Generator"])
                 yield case
@@ -1045,13 +1047,26 @@ def _key(case):
     return repr(sorted(case.items(), key=str))
 
 
-def _drive(ctx, cases, sample_of):
-    per_cls = {}
+def iter_findings(cases):
+    """(case, findings) of every case.  When two runs of one optimiser have hit
+    the time limit its remaining cases are skipped (a non-terminating optimiser
+    would otherwise consume the limit once per case)."""
+    timeouts = {}
     for case in cases:
+        if timeouts.get(case["algo"], 0) >= 2:
+            continue
         try:
             fs = findings(case)
         except Exception as e:      # a failure of the harness itself must not pass silently
             fs = [("X", "harness-exception:%s" % type(e).__name__, "exception %s: %s" % (type(e).__name__, e))]
+        if any(cls.startswith("no-termination") for _, cls, _ in fs):
+            timeouts[case["algo"]] = timeouts.get(case["algo"], 0) + 1
+        yield case, fs
+
+
+def _drive(ctx, cases, sample_of):
+    per_cls = {}
+    for case, fs in iter_findings(cases):
         ctx.case(key=_key(case), nontrivial=True, sample=sample_of(case))
         for clause, cls, msg in fs:
             per_cls[cls] = per_cls.get(cls, 0) + 1
